@@ -241,7 +241,7 @@ func TestVerifC32Upload(t *testing.T) {
 		return c32HTTPResult{Status: resp.StatusCode, Body: b}, err
 	}
 
-	nSingle, nMulti := r.N(80, 800), r.N(50, 500)
+	nSingle, nMulti := r.N(80, 1600), r.N(50, 1000)
 	if v, err := strconv.Atoi(os.Getenv("C32_DEV_N")); err == nil && v > 0 {
 		nSingle, nMulti = v, v // development knob only; never set by bin/check
 	}
